@@ -33,7 +33,10 @@ func VerifC13Source() {
 		return s
 	}
 	var t, want string
-	switch nd.Choice(4) {
+	switch nd.Choice(5) {
+	case 4: // an expression that starts with a minus sign is not a hyphen marker
+		t = "a" + w1 + "{{ -1 }}" + w2 + "{{" + h(l1) + " -2 | plus: x " + h(r1) + "}}" + w3 + "b"
+		want = "a" + w1 + "-1" + trimR(w2, l1) + "5" + trimR(w3, r1) + "b"
 	case 0: // an object between two texts
 		t = "a" + w1 + "{{" + h(l1) + " x " + h(r1) + "}}" + w2 + "b"
 		want = "a" + trimR(w1, l1) + "7" + trimR(w2, r1) + "b"
